@@ -983,7 +983,7 @@ def c14(ctx):
             out.append(d)
             continue
         # read back through Graph.parse
-        src = fam_rdflib.build(case["stmts"], case["ns"], case["data"] == "dataset")
+        src = fam_rdflib.build(case["stmts"], case["ns"], case["data"] == "dataset", case.get("empty_graphs", ()))
         try:
             data = src.serialize(encoding="jelly", format="jelly", options=core.make_options(cfg))
         except Exception:  # noqa: BLE001
@@ -1094,6 +1094,68 @@ def c15(ctx):
             out.append({"family": "EN", "entry": "stream_frames", "cfg": cfg.as_json(), "stmts": [core_stmt_tok(s) for s in stmts], "ns": [], "sink": False, "corresponds": True,
                         "impl": str(res.get("g"))[:300], "model": str(res.get("r"))[:300],
                         "property_violation": {"what": "the generic and the rdflib serializer write different bytes for corresponding data and the same options"}, "signature": {}})
+    out += c15_grouped(ctx, ctx.n(60, 800))
+    return out
+
+
+def c15_grouped_case(k: int, groups: list, ns: list, frame_size: int, nd: bool, maxp: int) -> tuple:
+    """grouped_stream_to_frames of both integrations on corresponding groups (triples graphs / sinks): the rdflib graphs are built
+    first, the generic sinks get the statements and the bindings in the order rdflib iterates them; same options object kind."""
+    import rdflib
+    from pyjelly.integrations.rdflib import serialize as rser
+    from pyjelly.options import LookupPreset, StreamParameters
+    from pyjelly.serialize.streams import SerializerOptions
+
+    def options():
+        return SerializerOptions(frame_size=frame_size, logical_type=1, params=StreamParameters(namespace_declarations=nd),
+                                 lookup_preset=LookupPreset(max_names=64, max_prefixes=maxp, max_datatypes=8))
+    graphs, sinks = [], []
+    for sts in groups:
+        gph = rdflib.Graph(bind_namespaces="none")
+        for a, b in ns:
+            gph.bind(a, rdflib.URIRef(b), override=True, replace=True)
+        for st in sts:
+            gph.add(tuple(fam_rdflib.to_rdflib(t) for t in st[:3]))
+        graphs.append(gph)
+        sk = gs.GenericStatementSink()
+        for p_, n_ in gph.namespaces():
+            sk.bind(p_, gs.IRI(str(n_)))
+        for tr in gph:
+            sk.add(gs.Triple(*[from_rdflib(t) for t in tr]))
+        sinks.append(sk)
+    res = {}
+    for ig, fn, data in (("g", gser.grouped_stream_to_frames, sinks), ("r", rser.grouped_stream_to_frames, graphs)):
+        try:
+            res[ig] = [f.SerializeToString(deterministic=True) for f in fn((x for x in data), options())]
+        except Exception as e:  # noqa: BLE001
+            res[ig] = "ERR " + type(e).__name__
+    return res["g"], res["r"]
+
+
+def c15_grouped(ctx, n: int) -> list:
+    out = []
+    r = ctx.rng
+    for _ in range(n):
+        g = genmod.Gen(r, nprefix=r.randint(1, 4), nname=r.randint(2, 6), ndt=r.randint(1, 2))
+        k = r.choice([1, 2, 3, 4])
+        # the first group is not empty: the generic integration guesses the stream class from the first sink, and an empty
+        # GenericStatementSink has no kind (is_triples_sink is False), while an empty rdflib Graph is still a Graph -- not corresponding data
+        groups = [fam_parse.rdf11_statements(r, g, r.choice([1, 3, 6] if i == 0 else [0, 1, 3, 6]), 3) for i in range(k)]
+        nd = r.random() < 0.6
+        ns = [(a, b) for a, b in g.namespaces(r.randint(0, 3)) if b] if nd else []
+        frame_size, maxp = r.choice([1, 3, 250]), r.choice([0, 4, 32])
+        ctx.report.evaluations += 1
+        ctx.report.count(f"C15/grouped sinks={k} declarations={'on' if nd else 'off'} bindings={len(ns)}")
+        if sum(len(x) for x in groups) > 1:
+            ctx.report.nontrivial.add(("grouped", k, nd, frame_size, maxp, tuple(tuple(core_stmt_tok(s) for s in x) for x in groups), tuple(ns)))
+        a, b = c15_grouped_case(k, groups, ns, frame_size, nd, maxp)
+        if a != b:
+            out.append({"family": "EN", "entry": "grouped_both", "cfg": {"frame_size": frame_size, "nd": nd, "maxp": maxp}, "groups": [[core_stmt_tok(s) for s in x] for x in groups],
+                        "ns": ns, "corresponds": True, "impl": str(a)[:300], "model": str(b)[:300],
+                        "property_violation": {"what": "grouped serialization: the generic and the rdflib serializer write different bytes for corresponding groups and the same options"},
+                        "signature": {}})
+            if len(out) >= 3:
+                break
     return out
 
 
